@@ -301,7 +301,7 @@ type phase struct {
 }
 
 type mutation struct {
-	adj  bool // header BlockAccessListHash adjusted to the mutated list
+	adj  int // 0: body only; 1: header BlockAccessListHash follows the mutated list; 2: hash and state root follow it
 	kind string
 	list *bal.BlockAccessList
 }
@@ -817,7 +817,10 @@ func build(seed uint64, nmut int) (res *built, err error) {
 	mr := r.Fork()
 	for len(b.muts) < nmut {
 		l, kind := mutate(mr, b.trueBal, b.n)
-		adj := !mr.Chance(1, 8)
+		adj := 0
+		if !mr.Chance(1, 8) {
+			adj = 1 + mr.Intn(2)
+		}
 		b.muts = append(b.muts, mutation{adj: adj, kind: kind, list: l})
 	}
 	// key universe: everything touched + everything a mutated list mentions
@@ -893,7 +896,7 @@ func (b *built) caseSx(nmut int) Sx {
 	}
 	var ms []Sx
 	for _, m := range b.muts {
-		ms = append(ms, L(Bool(m.adj), flatten(m.list).sx()))
+		ms = append(ms, L(I(int64(m.adj)), flatten(m.list).sx()))
 	}
 	return L(U(b.seed), I(int64(nmut)), U(b.block.GasLimit()), kvsSx(b.pre), L(steps...), L(sch...),
 		flatten(b.trueBal).sx(), L(ms...))
@@ -1032,11 +1035,20 @@ func pipeline(bc *core.BlockChain, blk *types.Block, workers int) int {
 	return 0
 }
 
-func withList(block *types.Block, l *bal.BlockAccessList, adj bool) *types.Block {
+// withList attaches the list; adj >= 1: the header commits to it; adj == 2: the header's
+// state root is the root ApplyBlockAccessList derives from it (a fully self-consistent lie)
+func withList(bc *core.BlockChain, block *types.Block, l *bal.BlockAccessList, adj int, valid bool) *types.Block {
 	h := block.Header()
-	if adj {
+	if adj >= 1 {
 		hash := l.Hash()
 		h.BlockAccessListHash = &hash
+	}
+	if adj == 2 && valid {
+		if st, err := bc.StateAt(bc.GetHeader(block.ParentHash(), block.NumberU64()-1)); err == nil {
+			if err := st.ApplyBlockAccessList(l); err == nil {
+				h.Root = st.IntermediateRoot(cfg.Rules(block.Number(), true, block.Time()))
+			}
+		}
 	}
 	return types.NewBlockWithHeader(h).WithBody(*block.Body()).WithAccessListUnsafe(l)
 }
@@ -1255,7 +1267,7 @@ func run(c Sx) Result {
 	for mi, m := range b.muts {
 		same := m.list.Hash() == b.trueBal.Hash()
 		valid := m.list.Validate(block.GasLimit(), b.n) == nil
-		blk := withList(block, m.list, m.adj)
+		blk := withList(bc, block, m.list, m.adj, valid)
 		class := pipeline(bc, blk, 1+mi%16)
 		if same {
 			if class != 0 {
@@ -1263,7 +1275,7 @@ func run(c Sx) Result {
 			}
 		} else {
 			if class == 0 {
-				fail("mutation %d (%s, header adjusted=%v): a block with a wrong access list is ACCEPTED", mi, m.kind, m.adj)
+				fail("mutation %d (%s, header adjustment=%d): a block with a wrong access list is ACCEPTED", mi, m.kind, m.adj)
 			} else {
 				rejected++
 			}
@@ -1314,7 +1326,7 @@ func run(c Sx) Result {
 func gen(r *Rng, tier string, emit func(Sx)) {
 	world()
 	r = NewRng(r.U64())
-	ncases, nmut, nvar, smut := 8, 32, 1, 24
+	ncases, nmut, nvar, smut := 6, 32, 1, 16
 	if tier == "thorough" {
 		ncases, nmut, nvar, smut = 80, 48, 5, 48
 	}
@@ -1353,7 +1365,7 @@ func main() {
 			"a balance-only contract that forwards from its balance, code deployed then called / hashed, storage-only " +
 			"chains, balance-only sinks, mixes, an empty block, a single tx) with random variants, and random blocks of " +
 			"2-9 txs over 17 transaction kinds (plus selfdestruct factory, creates, transfers to the coinbase / fresh " +
-			"accounts, withdrawals); per block 24-32 mutated access lists (48 thorough); non-trivial: >= 2 txs, >= 2/3 of " +
+			"accounts, withdrawals); per block 16-32 mutated access lists (48 thorough); non-trivial: >= 2 txs, >= 2/3 of " +
 			"the mutations rejected (>= 5), >= 1 mutation that changes a view a transaction reads",
 		Gen:         gen,
 		Run:         run,
